@@ -40,7 +40,7 @@ func TestMkCorpus(t *testing.T) {
 	want := os.Getenv("C03_ONLY")
 	mk := func(name string, c *om.Case) {
 		if want == "" || want == name {
-			mkCorpus(t, name, c, vGCC)
+			mkCorpus(t, name, c, variantByName(os.Getenv("C03_VARIANT")))
 		}
 	}
 	mk("convert-u-no-union-member", om.Handmade(cfg, "i", "f", "f32.convert_i32_u", true, false, nil, []string{"local.get $a", "f32.convert_i32_u"}, u(0xffffffff), u(5)))
@@ -95,4 +95,26 @@ func TestMkCorpus(t *testing.T) {
 	mk("call-indirect-null", om.Handmade(cfg, "i", "i", "call_indirect", true, false, nil, []string{"i32.const 1", "i32.const 2", "local.get $a", "call_indirect (type $t_ii_i)"}, u(0), u(2)))
 	mk("i32-div-s-min-m1", om.Handmade(cfg, "ii", "i", "i32.div_s", true, false, nil, []string{"local.get $a", "local.get $b", "i32.div_s"}, u(0x80000000, 0xffffffff), u(7, 0)))
 	mk("global-f32-init", om.Handmade(cfg, "", "f", "global.get", true, false, nil, []string{"global.get $g_f"}, u()))
+	om.HandmadeClass = ""
+	for _, o := range []struct {
+		op, in, out string
+		args        []uint64
+	}{
+		{"i32.add", "ii", "i", u(0x7fffffff, 1)}, {"i32.sub", "ii", "i", u(0x80000000, 1)}, {"i32.mul", "ii", "i", u(0x10000, 0x10000)},
+		{"i64.add", "II", "I", u(1<<63-1, 1)}, {"i64.sub", "II", "I", u(1<<63, 1)}, {"i64.mul", "II", "I", u(1<<32, 1<<32)},
+		{"i32.shl", "ii", "i", u(0x80000001, 1)}, {"i64.shl", "II", "I", u(1<<63|1, 1)}, {"i32.shr_s", "ii", "i", u(0x80000001, 33)},
+		{"i32.div_s", "ii", "i", u(7, 0)}, {"i32.div_u", "ii", "i", u(7, 0)}, {"i32.rem_u", "ii", "i", u(7, 0)}, {"i64.div_s", "II", "I", u(1<<63, ^uint64(0))},
+		{"f32.convert_i64_s", "I", "f", u(1<<63 - 1)}, {"f32.demote_f64", "F", "f", u(0x7fefffffffffffff)}, {"i32.wrap_i64", "I", "i", u(0xffffffff80000000)},
+		{"i32.clz", "i", "i", u(0)}, {"i64.ctz", "I", "I", u(0)}, {"i32.rotl", "ii", "i", u(0x80000001, 0)}, {"i64.rotr", "II", "I", u(1, 64)},
+		{"i64.extend_i32_u", "i", "I", u(0xffffffff)}, {"f64.div", "FF", "F", u(0x3ff0000000000000, 0)},
+	} {
+		var body []string
+		for k := range o.in {
+			body = append(body, fmt.Sprintf("local.get $%c", "ab"[k]))
+		}
+		mk("ub-"+o.op, om.Handmade(cfg, o.in, o.out, o.op, true, false, nil, append(body, o.op), o.args))
+	}
+	mk("ub-store8", om.Handmade(cfg, "ii", "", "i32.store8", true, true, nil, []string{"local.get $a", "local.get $b", "i32.store8"}, u(16, 0x1ff)))
+	mk("ub-store16-64", om.Handmade(cfg, "iI", "", "i64.store16", true, true, nil, []string{"local.get $a", "local.get $b", "i64.store16"}, u(17, 0xffffffffffff8000)))
+	mk("ub-memcopy", om.Handmade(cfg, "", "", "memory.copy", true, true, nil, []string{"i32.const 8", "i32.const 0", "i32.const 200", "memory.copy"}, u()))
 }
